@@ -193,7 +193,7 @@ def real_fixture(scratch):
 
 def resolve(case, fixture):
     c = dict(case)
-    for k in ("rustfmt", "config"):
+    for k in ("rustfmt", "config", "rustfmt_env"):
         if c.get(k) in fixture:
             c[k] = fixture[c[k]]
     return c
@@ -235,6 +235,12 @@ def real_cases(tier, seed):
                 "read1:500;exit:2"]
     for i, s in enumerate(scripts):
         add("script", 60 if i % 2 else 1, i % 2, FAKEFMT, s, sink=["vec", "file", "string"][i % 3])
+    # the formatter named by $RUSTFMT instead of with_rustfmt()
+    for env_v, exp, scr in (("", "fallback", ""), ("   ", "fallback", ""), ("@MISSING@", "fallback", ""), ("@DIR@", "fallback", ""),
+                            ("@FAKEFMT@", "model", "readall;write:formatted:all;exit:0"),
+                            ("@FAKEFMT@", "model", "readall;write:formatted:half;exit:1")):
+        for size in (1, 60):
+            add("rustfmt-env", size, size % 2, "", scr, expect=exp, rustfmt_env=env_v)
     # never reads stdin on a multi-megabyte input; slow reader; big output before reading
     for s in ("exit:1", "kill:9", "write:big:all;exit:1", "write:big:all;exit:0", "closein;write:big:all;exit:2",
               "read:100000;exit:1", "read1:3000;exit:1", "readall;write:formatted:all;exit:0",
